@@ -290,7 +290,7 @@ func TestVFC15RefreshVsAdmin(t *testing.T) {
 
 			return nil
 		}
-		deadline := time.Now().Add(4 * time.Second)
+		deadline := time.Now().Add(20 * time.Second)
 		err := check()
 		for err != nil && time.Now().Before(deadline) {
 			time.Sleep(20 * time.Millisecond)
